@@ -193,6 +193,8 @@ Inductive hop :=
 | Close
 | Reopen                                     (* store.close(); store = NpyStore(filename, batch_size) *)
 | Pickle                                     (* store = pickle.loads(pickle.dumps(store)) (old object dropped) *)
+| Open (k : nat)                             (* store.close(); store = NpyStore(filename, batch_size, n_batches=k):
+                                                a store that exposes the first k batches of the file *)
 | Read (i : nat).                            (* store[i] *)
 
 Definition err (m : mem) : list lop * mem * bool := ([], m, true).
@@ -230,7 +232,7 @@ Definition expand (v : variant) (bs : nat) (m : mem) (op : hop) : list lop * mem
   | Flush => arr_flush m
   | Close => let '(l, m1) := arr_close m in (l, m1, false)
   | Read _ => st_read m
-  | Reopen | Pickle => ([], m, false)      (* two-phase, see [hstep] *)
+  | Reopen | Pickle | Open _ => ([], m, false)      (* two-phase, see [hstep] *)
   end.
 
 (** [NpyArray.__init__] on an existing file, [ArrayStore.__init__] *)
@@ -248,6 +250,14 @@ Definition hstep (v : variant) (bs : nat) (o : oracle) (i : nat) (m : mem) (f : 
       let f1 := lexec o i l1 f in
       match read_header (f_disk f1) with
       | Some h => {| r_mem := opened bs h None; r_file := f1; r_lops := l1; r_err := false |}
+      | None => {| r_mem := m1; r_file := f1; r_lops := l1; r_err := true |}
+      end
+  | Open k =>                                       (* as [Reopen], with the documented argument n_batches=k *)
+      let '(l0, m1) := arr_close m in
+      let l1 := l0 ++ [LOpen false; LSeek] in
+      let f1 := lexec o i l1 f in
+      match read_header (f_disk f1) with
+      | Some h => {| r_mem := opened bs h (Some k); r_file := f1; r_lops := l1; r_err := false |}
       | None => {| r_mem := m1; r_file := f1; r_lops := l1; r_err := true |}
       end
   | Pickle =>
@@ -306,10 +316,40 @@ Definition spec_step (l : list batch) (op : hop) : list batch :=
       if i =? length l then l ++ [b] else if i <? length l then replace i b l else l
   | Del i => if (0 <? length l) && (i =? length l - 1) then removelast l else l
   | Clear => []
+  | Open k => firstn k l       (* the visible list only; the batches hidden in the file are tracked by [pspec_step] *)
   | _ => l
   end.
 
 Definition spec (ops : list hop) : list batch := fold_left spec_step ops [].
+
+(** ---- prefix stores ----
+    [Open k] gives a store whose [n_batches] is smaller than the number of batches in the file.
+    The in-memory list alone no longer determines what later operations do ([Reopen] shows the
+    hidden batches again), so the specification state is the pair (batches physically in the file,
+    n_batches); the store must report [visible] = the first [n_batches] of them.  A write at index
+    [n_batches] replaces the hidden batch at that place (it must land at rows [k*bs, (k+1)*bs), not at
+    the end of the file) and makes it visible; only when nothing is hidden does it append.
+    [C06_prefix_visible] (Properties/C06.v) shows that, between two [Reopen]/[Open], [visible] evolves
+    exactly as the plain list of batches under [spec_step]. *)
+Definition pstate := (list batch * nat)%type.
+
+Definition visible (s : pstate) : list batch := firstn (snd s) (fst s).
+
+Definition pspec_step (s : pstate) (op : hop) : pstate :=
+  let '(P, n) := s in
+  match op with
+  | Set_ i good b =>
+      if n <? i then s
+      else if i =? length P then (P ++ [b], S n)
+      else (replace i b P, if i =? n then S n else n)
+  | Del i => if (0 <? n) && (i =? n - 1) then (firstn i P, i) else s
+  | Clear => ([], 0)
+  | Reopen => (P, length P)
+  | Open k => (P, k)
+  | _ => s
+  end.
+
+Definition pspec (ops : list hop) : pstate := fold_left pspec_step ops ([], 0).
 
 (** ---- correspondence-check interface ---- *)
 
@@ -534,7 +574,35 @@ Definition ok_crash1 (ops : list hop) (errs : list bool) (cont : list (list batc
 Definition stops_at_close (ops : list hop) : bool :=
   match ops with [] => true | _ => forallb (fun op => match op with Close => false | _ => true end) (removelast ops) end.
 
+Definition is_open (op : hop) : bool := match op with Open _ => true | _ => false end.
+Definition has_open (ops : list hop) : bool := existsb is_open ops.
+
+(** reports of a history with [Open]: [len(store)] and the batches are [visible] of the
+    specification state; after a flush-like operation (and after [Open], which closes the file)
+    the file loads to all the batches physically in it *)
+Fixpoint okp_reports (s : pstate) (ops : list hop) (obs : list obs) : bool :=
+  match ops, obs with
+  | [], _ => true
+  | op :: ops', ob :: obs' =>
+      let s' := if o_err ob then s else pspec_step s op in
+      (o_len ob =? snd s')
+      && match o_batches ob with
+         | Some bt => eqb_batches bt (visible s')
+         | None => match op with Close => negb (o_err ob) | _ => false end
+         end
+      && match o_load ob with
+         | Some x => o_err ob || eqb_opt eqb_rows x (Some (flat (fst s')))
+         | None => true
+         end
+      && match op with Close => true | _ => okp_reports s' ops' obs' end
+  | _, [] => false
+  end.
+
+(** Histories with [Open] are judged on their reports only (the crash clause below speaks of the
+    contents of the in-memory list, which a file with hidden batches does not load to; the crash
+    points of such histories are still compared with the model by [agree]). *)
 Definition ok (c : case) : bool :=
+  if has_open (c_ops c) then okp_reports ([], 0) (c_ops c) (c_obs c) else
   ok_reports [] (c_ops c) (c_obs c)
   && (negb (stops_at_close (c_ops c))
       || let errs := map o_err (c_obs c) in
